@@ -36,7 +36,13 @@ MANIFEST = {
 RULE = ("three kinds of case: text_repr over an alphabet of quotes, backslash, newline, CR, NUL, DEL, NEL, astral and "
         "combining characters (exhaustive over 5 symbols to a length bound, random to length 40; str and bytes; "
         "multiline None/True/False); every name in testtools.matchers.__all__ instantiated with mismatching values "
-        "incl. non-ASCII text, bytes and control characters, with and without annotation, plus random combinator "
+        "incl. non-ASCII text, bytes and control characters, with and without annotation; systematically for every "
+        "exported name: every text argument (expected values, needles, patterns, annotations, dict keys, file names "
+        "and contents, exception arguments, messages) drawn from text special to str.format / the %-operator / "
+        "escaping (braces, fields, percent conversions, backslashes; valid regular expressions with counted "
+        "repetitions, literal braces, percent signs), every iterable argument given as empty / 1-element / longer "
+        "tuple, list, set, frozenset, sorted list, generator, dict keys, and tuples as matchees wherever match() is "
+        "defined on arbitrary objects (quick tier: the text x matcher product is sampled, the rest complete); plus random combinator "
         "expressions as in C06; real TestCases whose setUp, test method, tearDown and up to three cleanups are sequences "
         "of assertThat/expectThat/assert_that with colliding detail names and of statements raising a skip, failure, "
         "expected failure, unexpected success or error (through skipTest/fail/expectFailure or directly), with the "
@@ -49,6 +55,14 @@ TRUSTED = ["unicodedata.category(c)[0] in 'CZ' (except space) as the oracle for 
            "ast.literal_eval as the reference evaluator on the implementation side (the statement uses the model's own "
            "evaluator on the implementation's output)"]
 ASSUMPTIONS = ["matchees given to MatchesPredicate are not tuples (its match() formats the matchee with %)",
+               "matchees are inside the matcher's domain (a path for the filesystem matchers, a mapping for the dict "
+               "matchers, text for StartsWith/EndsWith/MatchesRegex, an exc_info for MatchesException, ...): match() "
+               "raising on a foreign matchee is not a describability failure; MatchesListwise gets a sized iterable; "
+               "MatchesPredicate messages are %-templates and MatchesPredicateWithParams messages are str.format "
+               "templates (special text is escaped accordingly inside them)",
+               "describability of the systematic argument domain is judged by spec_okb on the implementation's "
+               "observation (kinds of str/describe/get_details/str(MismatchError) and the three assertion entry "
+               "points); the Coq model of IDesc is 'total by construction' (sampled extension, not modelled)",
                "details carry their payload token in their text so that they can be recognised in the outcome",
                "setUp and tearDown upcall the base method exactly once unless a statement before the upcall raises (C02); "
                "test programs raise only Exception subclasses (no KeyboardInterrupt/SystemExit: C01) and do not use a "
@@ -127,7 +141,7 @@ def harness_table():
     import warnings as W
     from testtools import matchers as M
     wm = W.WarningMessage(UserWarning("caf\xe9"), UserWarning, "f.py", 3)
-    return {
+    return special_table(M, {
         "AfterPreprocessing": [(lambda: M.AfterPreprocessing(len, M.Equals(99)), NASTY),
                                (lambda: M.AfterPreprocessing(str, M.Equals("q"), annotate=False), NASTY + [1])],
         "AllMatch": [(lambda: M.AllMatch(M.Equals(1)), [[2, "caf\xe9"], [b"\xff", "a\nb"]])],
@@ -197,7 +211,165 @@ def harness_table():
                      (lambda: M.Warnings(M.HasLength(2)), [lambda: None, _warner(UserWarning, "caf\xe9\n")])],
         "WarningMessage": [(lambda: M.WarningMessage(DeprecationWarning, message=M.Equals("x")), [wm]),
                            (lambda: M.WarningMessage(UserWarning, lineno=M.Equals(4), filename=M.Contains("\xe9")), [wm])],
-    }
+    })
+
+
+# text that is special to the machinery messages are built with: str.format fields, %-conversions, backslashes
+SPECIAL = ["{}", "{0}", "{name}", "{0!r:>{1}}", "{", "}", "a{2}", "%s", "%d", "%", "%%", "%(x)s", "100% {sure}", "\\",
+           "\\d{4}", "{0.__class__}"]
+# ... as regular expressions (all valid): counted repetitions, literal braces, percent signs
+SPECIAL_RE = ["\\d{4}-\\d{2}", "[0-9a-f]{8,}", "\\{\\}", "[{]", "x{0}", "{name}", "a%sb", "%d+", "100%", "%(x)s", "\\\\", "a{2}|%%"]
+# matchees that are containers the %-operator treats specially, next to special text
+TUPLES = [(), (1,), (1, 2), ("%s", "{0}")]
+# the ways an iterable argument can be given
+CONTAINERS = [("tuple0", lambda xs: ()), ("tuple1", lambda xs: tuple(xs[:1])), ("tuple", tuple), ("list", list),
+              ("set", set), ("frozenset", frozenset), ("sorted", sorted), ("generator", lambda xs: (x for x in xs)),
+              ("dictkeys", lambda xs: dict.fromkeys(xs).keys())]
+
+
+def special_table(M, table):
+    """Systematic extension of the argument domain of every exported matcher: text arguments drawn from SPECIAL /
+    SPECIAL_RE wherever a matcher takes text (expected values, needles, patterns, annotations, dict keys, file
+    names and contents, exception arguments, messages), every iterable argument given as each of CONTAINERS, and
+    the TUPLES as matchees.  Variants are appended, so the earlier (name, variant) numbers keep their meaning."""
+    for name in table:
+        table[name] = [(mk, vals, "base") for mk, vals in table[name]]
+    tag = ["text"]
+
+    def add(name, mk, vals):
+        arg = (mk.__defaults__ or ("",))[0]            # the special text / pattern / shape the variant is built from
+        if not isinstance(arg, (str, bytes)):
+            arg = next((label for label, f in CONTAINERS if f is arg), "")
+        table.setdefault(name, []).append((mk, list(vals), "%s:%s" % (tag[0], arg if isinstance(arg, str) else arg.decode("latin1"))))
+
+    def exc(e):
+        return _exc_info(e)
+
+    sp = SPECIAL
+    for s in SPECIAL:
+        b = s.encode("ascii")
+        add("Annotate", lambda s=s: M.Annotate(s, M.Equals(1)), [2, s])
+        add("Contains", lambda s=s: M.Contains(s), ["abc", ["x"], ("x",)])
+        add("ContainsAll", lambda s=s: M.ContainsAll([s, "zz"]), [["zz"], (s,), ""])
+        add("ContainedByDict", lambda s=s: M.ContainedByDict({s: M.Equals(1)}), [{s: 2}, {"other" + s: 1}])
+        add("ContainsDict", lambda s=s: M.ContainsDict({s: M.Equals(1)}), [{}, {s: s}])
+        add("MatchesDict", lambda s=s: M.MatchesDict({s: M.Equals(s)}), [{}, {s: 1}, {s: s, s + s: s}])
+        add("KeysEqual", lambda s=s: M.KeysEqual(s, "b"), [{s: 1}, {}])
+        add("DirContains", lambda s=s: M.DirContains([s]), ["d1", "nope" + s])
+        add("DirContains", lambda s=s: M.DirContains(matcher=M.Contains(s)), ["d1"])
+        add("FileContains", lambda s=s: M.FileContains(s), ["f1", "nope" + s])
+        add("FileContains", lambda s=s: M.FileContains(matcher=M.EndsWith(s)), ["f1"])
+        add("DocTestMatches", lambda s=s: M.DocTestMatches(s + "\n"), ["x\n", s + s])
+        add("EndsWith", lambda s=s: M.EndsWith(s), ["ab", s + "x"])
+        add("EndsWith", lambda b=b: M.EndsWith(b), [b"ab"])
+        add("StartsWith", lambda s=s: M.StartsWith(s), ["ab", "x" + s])
+        add("StartsWith", lambda b=b: M.StartsWith(b), [b"ab"])
+        add("Equals", lambda s=s: M.Equals(s), ["ab", s + s, b, 1])
+        add("NotEquals", lambda s=s: M.NotEquals(s), [s])
+        add("Is", lambda s=s: M.Is(s), [s + "x"])
+        add("GreaterThan", lambda s=s: M.GreaterThan(s), [""])
+        add("LessThan", lambda s=s: M.LessThan(s), ["~~~"])
+        add("HasPermissions", lambda s=s: M.HasPermissions(s), ["f1"])
+        add("SamePath", lambda s=s: M.SamePath(s), ["f1", "nope" + s])
+        add("TarballContains", lambda s=s: M.TarballContains([s]), ["t.tar"])
+        add("SameMembers", lambda s=s: M.SameMembers([s, 1]), [[s], [1, s, s], (s,)])
+        add("Not", lambda s=s: M.Not(M.Equals(s)), [s])
+        add("Not", lambda s=s: M.Not(M.Contains(s)), [s + s])
+        add("AfterPreprocessing", lambda s=s: M.AfterPreprocessing(str, M.Equals(s)), [1, s + s])
+        add("AllMatch", lambda s=s: M.AllMatch(M.Equals(s)), [[s, 1], (1,)])
+        add("AnyMatch", lambda s=s: M.AnyMatch(M.Equals(s)), [[1], ()])
+        add("MatchesAll", lambda s=s: M.MatchesAll(M.Equals(s), M.StartsWith(s)), ["ab"])
+        add("MatchesAny", lambda s=s: M.MatchesAny(M.Equals(s), M.EndsWith(s)), ["ab"])
+        add("MatchesListwise", lambda s=s: M.MatchesListwise([M.Equals(s)]), [[1], [s, s]])
+        add("MatchesSetwise", lambda s=s: M.MatchesSetwise(M.Equals(s)), [[1], [s, s]])
+        add("MatchesStructure", lambda s=s: M.MatchesStructure(a=M.Equals(s)), [_obj(a=1), _obj(a=s + s)])
+        add("MatchesStructure", lambda s=s: M.MatchesStructure.byEquality(a=s), [_obj(a=1)])
+        add("MatchesException", lambda s=s: M.MatchesException(ValueError(s)), [exc(ValueError(s + s)), exc(KeyError(s))])
+        add("MatchesException", lambda s=s: M.MatchesException(ValueError, M.Equals(s)), [exc(ValueError(1))])
+        add("Raises", lambda s=s: M.Raises(M.MatchesException(ValueError(s))), [_raiser(KeyError(s)), lambda: s])
+        add("raises", lambda s=s: M.raises(ValueError(s)), [_raiser(ValueError(s + s)), lambda: s])
+        add("IsDeprecated", lambda s=s: M.IsDeprecated(M.Contains(s + s)), [_warner(DeprecationWarning, s)])
+        add("Warnings", lambda s=s: M.Warnings(M.MatchesListwise([M.WarningMessage(UserWarning, message=M.Equals(s + s))])),
+            [_warner(UserWarning, s), lambda: None])
+        add("WarningMessage", lambda s=s: M.WarningMessage(UserWarning, message=M.Equals(s)),
+            [_W().WarningMessage(UserWarning(s + s), UserWarning, s + ".py", 3)])
+        add("MatchesPredicate", lambda s=s: M.MatchesPredicate(lambda x: False, "%s is bad " + s.replace("%", "%%")), [1, s])
+        add("MatchesPredicateWithParams",
+            lambda s=s: M.MatchesPredicateWithParams(lambda x, y: False, "{0} vs {1} " + s.replace("{", "{{").replace("}", "}}"))(s),
+            [1, s])
+        add("PathExists", lambda: M.PathExists(), ["nope" + s])
+        add("DirExists", lambda: M.DirExists(), ["nope" + s])
+        add("FileExists", lambda: M.FileExists(), ["nope" + s])
+        add("HasLength", lambda: M.HasLength(99), [s])
+        add("Always", lambda: M.Always(), [s])
+        add("Never", lambda: M.Never(), [s])
+        add("IsInstance", lambda: M.IsInstance(int), [s])
+    tag[0] = "re"
+    for r in SPECIAL_RE:
+        add("MatchesRegex", lambda r=r: M.MatchesRegex(r), ["nomatch", "{0} %s {}"])
+        add("MatchesRegex", lambda r=r: M.MatchesRegex(r.encode("ascii")), [b"nomatch", b"{0} %s"])
+        add("MatchesException", lambda r=r: M.MatchesException(ValueError, r), [exc(ValueError("nomatch {0} %s")), exc(KeyError("k"))])
+        add("MatchesException", lambda r=r: M.MatchesException((KeyError, ValueError), r), [exc(ValueError("nomatch"))])
+        add("Raises", lambda r=r: M.Raises(M.MatchesException(ValueError, r)), [_raiser(ValueError("nomatch %s"))])
+        add("AllMatch", lambda r=r: M.AllMatch(M.MatchesRegex(r)), [["nomatch", "{}"]])
+        add("Not", lambda r=r: M.Not(M.Not(M.MatchesRegex(r))), ["nomatch"])
+    # every iterable argument in every shape
+    tag[0] = "shape"
+    names = ["a%s", "b{0}", "zz"]
+    for label, shape in CONTAINERS:
+        ordered = label != "sorted"          # matchers and types cannot be sorted
+        sized = label != "generator"         # MatchesListwise takes len() of its argument
+        add("DirContains", lambda shape=shape: M.DirContains(shape(names)), ["d1", "nope"])
+        add("TarballContains", lambda shape=shape: M.TarballContains(shape(names)), ["t.tar"])
+        add("SameMembers", lambda shape=shape: M.SameMembers(shape(names)), [["q"], ("a%s",)])
+        add("ContainsAll", lambda shape=shape: M.ContainsAll(shape(names)), [["q"], ()])
+        add("KeysEqual", lambda shape=shape: M.KeysEqual(*shape(names)), [{"q": 1}])
+        if ordered and sized:
+            add("MatchesListwise", lambda shape=shape: M.MatchesListwise(shape([M.Equals(1), M.Equals("{0}")])), [[2, 3], (1,), []])
+        if ordered:
+            add("MatchesSetwise", lambda shape=shape: M.MatchesSetwise(*shape([M.Equals(1), M.Equals("%s")])), [[2, 3], (1,), []])
+            add("MatchesAll", lambda shape=shape: M.MatchesAll(*shape([M.Equals(1), M.Equals("%s")])), [2, (1,)])
+            add("MatchesAny", lambda shape=shape: M.MatchesAny(*shape([M.Equals(1), M.Equals("{}")])), [2, (1,)])
+            add("IsInstance", lambda shape=shape: M.IsInstance(*shape([int, dict, bytes])), ["x", (1,)])
+        if label not in ("set", "frozenset", "generator", "dictkeys", "list", "sorted"):
+            # the exception argument is a type or a tuple of types (isinstance semantics)
+            add("MatchesException", lambda shape=shape: M.MatchesException(shape([KeyError, OSError])),
+                [exc(ValueError("v")), exc(KeyError("{0} %s"))])
+            add("MatchesException", lambda shape=shape: M.MatchesException(shape([KeyError, OSError]), "a{2}%s"),
+                [exc(KeyError("k")), exc(ValueError("v"))])
+            add("Raises", lambda shape=shape: M.Raises(M.MatchesException(shape([KeyError, OSError]))), [_raiser(ValueError("v")), lambda: 1])
+    # tuples as matchees of every matcher whose match() is defined on arbitrary objects (the others raise on a
+    # matchee outside their domain: a path, a mapping, a callable, an exc_info, text, a comparable ...)
+    tag[0] = "tuple"
+    for name in sorted(table):
+        if name not in TUPLE_OUT_OF_DOMAIN:
+            add(name, table[name][0][0], TUPLES)
+    add("GreaterThan", lambda: M.GreaterThan((1, "%s")), [(0,), ()])
+    add("LessThan", lambda: M.LessThan((1, "{0}")), [(2,), (1, "{0}", 0)])
+    add("Equals", lambda: M.Equals((1, "%s")), TUPLES)
+    add("Contains", lambda: M.Contains((1, 2)), TUPLES + [[(1,)]])
+    add("ContainedByDict", lambda: M.ContainedByDict({(1, 2): M.Equals(1)}), [{(1, 2): 2}, {(): 1}])
+    add("MatchesDict", lambda: M.MatchesDict({(1, "%s"): M.Equals((1,))}), [{(1, "%s"): (2,)}, {}])
+    add("KeysEqual", lambda: M.KeysEqual((1, 2), ()), [{(1,): 1}])
+    return table
+
+
+TUPLE_OUT_OF_DOMAIN = {
+    "ContainedByDict", "ContainsDict", "MatchesDict", "KeysEqual", "WarningMessage",          # mappings / records
+    "DirContains", "DirExists", "FileContains", "FileExists", "HasPermissions", "PathExists", "SamePath",
+    "TarballContains",                                                                        # paths
+    "EndsWith", "StartsWith", "MatchesRegex", "DocTestMatches",                               # text
+    "GreaterThan", "LessThan",                                                                # comparable with the bound
+    "IsDeprecated", "Warnings",                                                               # callables
+    "MatchesException",                                                                       # exc_info triples
+    "MatchesStructure",                                                                       # objects with the attributes
+    "MatchesPredicate",                                                     # message % matchee (see ASSUMPTIONS)
+}
+
+
+def _W():
+    import warnings
+    return warnings
 
 
 EXC_CODES = [AttributeError, NotImplementedError, TypeError]
@@ -291,7 +463,7 @@ def drive_desc(case):
         table = harness_table()
         if case["name"] not in table:
             return {"kinds": [], "hm": False, "asserts": [], "unmodelled": True}
-        mk, vals = table[case["name"]][case["variant"]]
+        mk, vals, _ = table[case["name"]][case["variant"]]
         return describe_all(mk(), vals[case["value"]], case["ann"])
     finally:
         os.chdir(cwd)
